@@ -199,6 +199,15 @@ func c13Calls() []c13Case {
 				ss = append(ss, gen.Decl{Name: name, T: tNum, Init: call("str2num", tNum, sl(s))}, printCall(vr(name, tNum)))
 			}
 			ss = append(ss, printCall(sl("state"), vr("err", tBool), call("repr", tStr, toAny(vr("errmsg", tStr)))))
+			// the message read piecewise (length, slice, first and last character, character loop) is the same text
+			ss = append(ss, printCall(sl("pieces"), call("len", tNum, toAny(vr("errmsg", tStr))), call("repr", tStr, toAny(gen.Slice{X: vr("errmsg", tStr)})), call("repr", tStr, toAny(gen.Slice{X: vr("errmsg", tStr), Lo: nl(0), Hi: call("len", tNum, toAny(vr("errmsg", tStr)))}))))
+			ss = append(ss, gen.If{Conds: []gen.Expr{gen.Binary{Op: ">", L: call("len", tNum, toAny(vr("errmsg", tStr))), R: nl(0), T: tBool}}, Blocks: [][]gen.Stmt{{
+				printCall(sl("ends"), gen.Index{X: vr("errmsg", tStr), I: nl(0), T: tStr}, gen.Index{X: vr("errmsg", tStr), I: nl(-1), T: tStr}),
+			}}})
+			acc := fmt.Sprintf("acc%d", k)
+			ss = append(ss, gen.Decl{Name: acc, T: tStr, Init: sl("")},
+				gen.For{Var: fmt.Sprintf("ch%d", k), VarT: tStr, Over: vr("errmsg", tStr), Body: []gen.Stmt{gen.Assign{Target: vr(acc, tStr), Val: gen.Binary{Op: "+", L: vr(acc, tStr), R: vr(fmt.Sprintf("ch%d", k), tStr), T: tStr}}}},
+				printCall(sl("loop"), gen.Binary{Op: "==", L: vr(acc, tStr), R: vr("errmsg", tStr), T: tBool}, call("repr", tStr, toAny(vr(acc, tStr)))))
 		}
 		out = append(out, c13Case{ss, "err-protocol " + strings.Join(sq, ",")})
 	}
@@ -234,15 +243,20 @@ func init() {
 	core.Register(&core.Check{
 		ID:    "C13",
 		Level: "exploration",
-		Rule: "one tiny program per call: every non-graphics built-in x argument tuples from value classes (numbers incl. NaN, +-Inf, -0, 2^31, 2^53+1, 1e300; strings incl. empty, multi-byte, astral, markup; composites; any), the documented sprintf verbs x flags x widths x precisions x matching and mismatching argument types, test with 1..5 arguments, err/errmsg protocol sequences; expected result from the reference table written from docs/builtins.md; plus all documentation examples with an evy:output block and (sampled) exit status / stderr of the real evy run. distinct = distinct (built-in, argument classes) cells",
+		Rule: "one tiny program per call: every non-graphics built-in x argument tuples from value classes (numbers incl. NaN, +-Inf, -0, 2^31, 2^53+1, 1e300; strings incl. empty, multi-byte, astral, markup; composites; any), the documented sprintf verbs x flags x widths x precisions x matching and mismatching argument types, test with 1..5 arguments, err/errmsg protocol sequences; expected result from the reference table written from docs/builtins.md; plus random sequences of 3-7 grid cells in one program (state left by one call meets the next), all documentation examples with an evy:output block and (sampled) exit status / stderr of the real evy run. distinct = distinct (built-in, argument classes) cells",
 		Assumptions: []string{
 			"widenings: spelling of non-finite and very large numbers compared by value; %v with precision on numbers, undocumented verbs, too few/many format arguments, str2num of hex/inf/nan/underscore spellings, replace with empty old string, exit with non-integer status are not judged",
 			"rand is judged by predicate (integral, 0 <= r < n) not by value",
 			"documentation examples are compared ignoring one trailing newline",
 		},
 		NeedsEvy: true,
-		NumCases: func(tier string) int { return len(c13Calls()) + 200 },
-		Exhaustive: func(tier string) bool { return true },
+		NumCases: func(tier string) int {
+			if tier == "thorough" {
+				return len(c13Calls()) + 200 + 30000
+			}
+			return len(c13Calls()) + 200 + 400
+		},
+		Exhaustive: func(tier string) bool { return false },
 		Setup: func(c *core.Ctx) error {
 			st := &c13State{calls: c13Calls(), docs: corpus.DocExamples(c.Repo)}
 			c.State = st
@@ -260,6 +274,10 @@ func c13Program(cs c13Case) *gen.Program {
 
 func c13Run(c *core.Ctx, i int) {
 	st := c.State.(*c13State)
+	if i >= len(st.calls)+200 {
+		c13Sequence(c, st)
+		return
+	}
 	if i >= len(st.calls) {
 		c13Docs(c, st, i-len(st.calls))
 		return
@@ -456,4 +474,53 @@ func c13Probe(c *core.Ctx, f core.Finding) (bool, string) {
 		return false, ""
 	}
 	return false, "no such cell"
+}
+
+// c13Sequence: 3-7 grid cells in one program, each in its own block (own names), so that what one
+// call leaves behind (err/errmsg, consumed input, cleared output, test counts, mutated maps) meets the
+// next call; judged against the reference like a single cell.
+func c13Sequence(c *core.Ctx, st *c13State) {
+	r := c.Rng
+	n := 3 + r.Intn(5)
+	var stmts []gen.Stmt
+	var names []string
+	for k := 0; k < n; k++ {
+		cs := st.calls[r.Intn(len(st.calls))]
+		fn := strings.SplitN(strings.SplitN(cs.what, "(", 2)[0], " ", 2)[0]
+		if fn == "rand" || fn == "rand1" || fn == "sleep" {
+			k--
+			continue
+		}
+		names = append(names, cs.what)
+		stmts = append(stmts, gen.If{Conds: []gen.Expr{gen.BoolLit{V: true}}, Blocks: [][]gen.Stmt{cs.stmts}})
+	}
+	c.Event("calls", n)
+	c.Event("sequences", 1)
+	what := "sequence " + strings.Join(names, " ; ")
+	c.Distinct(what)
+	prog := &gen.Program{Stmts: append(c13Prelude(), stmts...)}
+	inputs := []string{"line one", "zwei", "3", ""}
+	text := gen.Print(prog, nil)
+	c.Journal(text)
+	in := ref.New()
+	in.Inputs = inputs
+	want := in.Run(prog, nil)
+	o := plat.Run(text, plat.Opts{Inputs: inputs, YieldBudget: 200000})
+	if o.Class == "parse-error" {
+		c.Violation("grid-program-rejected", what+": "+firstN(o.ErrText, 200), text, nil)
+		return
+	}
+	if o.Class == "gopanic" {
+		c.Violation("host-crash:sequence@"+o.Site, what+": Go panic inside a built-in: "+firstN(o.GoPanic, 200), text, nil)
+		return
+	}
+	judged, ok, why := mon.Compare(o, want)
+	if !judged {
+		c.Event("not_judged_undocumented", 1)
+		return
+	}
+	c.Event("effects_compared", len(o.Events))
+	if !ok {
+		c.Violation("doc-mismatch:sequence", what+": "+why, text, nil)
+	}
 }
